@@ -1,6 +1,8 @@
 package exec
 
 import (
+	"math/bits"
+	"math"
 	"fmt"
 	"go/types"
 	"net/http"
@@ -382,6 +384,35 @@ func init() {
 	}
 	intrinsics["bytes.Equal"] = eqBytes
 	intrinsics["internal/bytealg.Equal"] = eqBytes
+	// math functions on concrete floats (floats are never symbolic in this engine)
+	for name, f := range map[string]func(float64) float64{"math.Trunc": math.Trunc, "math.Floor": math.Floor, "math.Ceil": math.Ceil, "math.Abs": math.Abs, "math.Round": math.Round, "math.Sqrt": math.Sqrt} {
+		fn := f
+		nm := name
+		intrinsics[nm] = func(in *Interp, fr *frame, call *ssa.CallCommon, args []Value) Value {
+			if nb, isBox := args[0].(JNumBox); isBox && nb.N.Kind == JNumVal && nm != "math.Abs" && nm != "math.Sqrt" {
+				return nb // a symbolic decoded integer is its own integral part
+			}
+			x, ok := args[0].(float64)
+			if !ok {
+				in.unsupported("%s of a number that is not a concrete float", nm)
+			}
+			return fn(x)
+		}
+	}
+	intrinsics["math.IsNaN"] = func(in *Interp, fr *frame, call *ssa.CallCommon, args []Value) Value {
+		x, ok := args[0].(float64)
+		if !ok {
+			in.unsupported("math.IsNaN of a number that is not a concrete float")
+		}
+		return in.Ctx.Bool(math.IsNaN(x))
+	}
+	intrinsics["math.IsInf"] = func(in *Interp, fr *frame, call *ssa.CallCommon, args []Value) Value {
+		x, ok := args[0].(float64)
+		if !ok || !term(args[1]).IsConst() {
+			in.unsupported("math.IsInf of a number that is not a concrete float")
+		}
+		return in.Ctx.Bool(math.IsInf(x, int(term(args[1]).Int())))
+	}
 	intrinsics["math/bits.Mul64"] = func(in *Interp, fr *frame, call *ssa.CallCommon, args []Value) Value {
 		a, b := term(args[0]), term(args[1])
 		return Tuple{in.Ctx.Bin(sym.OpMulHi, a, b), in.Ctx.Bin(sym.OpMul, a, b)}
@@ -493,7 +524,28 @@ func modelSortSlice(in *Interp, fr *frame, call *ssa.CallCommon, args []Value) V
 		in.goPanic("sort.Slice: not a slice")
 	}
 	if s.Len > 12 {
-		in.unsupported("sort.Slice of more than 12 elements")
+		// above 12 elements the library's own pattern-defeating quicksort runs (from its SSA),
+		// over the comparator given and a swapper of the model slice; only reflectlite's part
+		// (length, element swapper) is modelled
+		in.noteModel("sort.Slice(n>12: sort.pdqsort_func executed from source over a modelled swapper)")
+		sp := in.P.Prog.ImportedPackage("sort")
+		if sp == nil || sp.Func("pdqsort_func") == nil {
+			in.unsupported("sort.Slice of more than 12 elements (pdqsort_func not found)")
+		}
+		var swap Intrinsic = func(in *Interp, fr *frame, call *ssa.CallCommon, a []Value) Value {
+			i, j := term(a[0]), term(a[1])
+			if !i.IsConst() || !j.IsConst() {
+				in.unsupported("sort.Slice: symbolic swap index")
+			}
+			x, y := int(i.Val), int(j.Val)
+			in.checkWrite(&s.Back[x])
+			in.checkWrite(&s.Back[y])
+			s.Back[x], s.Back[y] = s.Back[y], s.Back[x]
+			return nil
+		}
+		limit := bits.Len(uint(s.Len))
+		in.callFn(fr, sp.Func("pdqsort_func"), nil, []Value{Struct{args[1], swap}, in.Ctx.BV(64, 0), in.Ctx.BV(64, uint64(s.Len)), in.Ctx.BV(64, uint64(limit))}, nil)
+		return nil
 	}
 	in.noteModel("sort.Slice(insertion sort, n<=12)")
 	less := args[1]
